@@ -83,6 +83,20 @@ CHECKS = {
        "(monitor + differential). call_later exactness assumed.",
   tech="Lean 4 proof (step theorems on the retention table) + virtual-time differential + sharing monitor",
   ref="§5 Batcher"),
+ "C15": dict(
+  text="Tie B: lean/AiutiVerif/Generated/Decorators.lean is regenerated from /repo/aiuti/asyncio.py (ast translator) "
+       "on every run and C15_options_forwarded / C15_documented_options are `decide`d over it, so an option dropped "
+       "from the partial() of the options form, bound to another name or not passed to the constructor breaks the "
+       "build at that theorem; C15_per_loop_independent proves that a registry of per-loop batcher machines, under "
+       "any interleaving of inputs from any number of loops, gives each loop exactly a stand-alone batcher fed its "
+       "own inputs. Behavioural tie: class / direct / @deco(opts) forms on the same random programs under a virtual "
+       "clock must agree with each other and with the Lean machine instantiated with those values (every option "
+       "alone and jointly), buffer and cache forms likewise, 1..3 loops successively and 2..3 concurrently",
+  note=NOTE_COMMON + "Trusted additionally: the ast translator (refuses source it does not understand -> reported "
+       "as a broken tie). The default batch_timeout 0.05 s is not on the tick grid: defaults are compared "
+       "form-against-form, not against the model. Holds only after fix 3779468 (F1).",
+  tech="Lean 4 `decide` over model data regenerated from the source (translator) + Lean proof of registry "
+       "independence + direct-vs-decorated differential in virtual time", ref="§5 C15"),
 }
 
 def main():
